@@ -5,7 +5,10 @@ package c05
 import (
 	_ "embed"
 	"fmt"
+	"os"
+	"path/filepath"
 	"strings"
+	"sync/atomic"
 
 	"verifharness/internal/ga"
 	"verifharness/internal/hx"
@@ -84,10 +87,69 @@ func length(v *ga.Val) int {
 	return 0
 }
 
+// extraMapValues: ga's pool of a map type only uses the first two values of the element pool (for a
+// slice element: nil and the empty slice, which own no memory).  A map whose values own memory is
+// what C05 is about, so the sources of a map type are extended by maps holding the composite
+// values of the element pool.
+func extraMapValues(t *ga.Type, r *hx.Rand) []*ga.Val {
+	env := map[int]*ga.Type{}
+	u := t
+	if t.K == ga.KNamed {
+		env[t.ID] = t
+		u = t.Elem
+	}
+	if u.K != ga.KMap {
+		return nil
+	}
+	g := ga.NewGen(r, 0)
+	ev := g.Pool(u.Elem, env, 2)
+	kv := g.Pool(u.Key, env, 2)
+	if len(ev) < 3 {
+		return nil
+	}
+	a, b := ev[len(ev)-1], ev[2+r.Intn(len(ev)-2)]
+	k0, k1 := kv[0], kv[len(kv)-1] // the zero key and a key with every leaf different: never ==
+	mk := func(kvs ...*ga.Val) *ga.Val {
+		m := &ga.Val{K: "m", Loc: g.Fresh()}
+		for i := 0; i+1 < len(kvs); i += 2 {
+			m.KVs = append(m.KVs, [2]*ga.Val{kvs[i].Clone(g.Fresh), kvs[i+1].Clone(g.Fresh)})
+		}
+		return m
+	}
+	out := []*ga.Val{mk(k0, a), mk(k1, b)}
+	if len(kv) > 1 {
+		out = append(out, mk(k0, b, k1, a))
+	}
+	return out
+}
+
+// corpus/C05/cases.txt: "<Go spelling of the type>\t<op> <args>" — regression cases (witnesses of
+// the mutations the check was tested against); they run whenever the type is part of the run (all
+// of them are depth <= 1 shapes, which every tier enumerates).
+func loadCorpus(dir string) map[string][]string {
+	out := map[string][]string{}
+	b, err := os.ReadFile(filepath.Join(dir, "cases.txt"))
+	if err != nil {
+		return out
+	}
+	for _, l := range strings.Split(string(b), "\n") {
+		if l == "" || l[0] == '#' {
+			continue
+		}
+		f := strings.SplitN(l, "\t", 2)
+		if len(f) == 2 {
+			out[f[0]] = append(out[f[0]], f[1])
+		}
+	}
+	return out
+}
+
 func Run(cfg hx.Config) (*hx.Meta, error) {
+	corpus := loadCorpus(cfg.Corpus)
+	var corpusRun int64
 	perSrc := 5
 	if cfg.Tier == "thorough" {
-		perSrc = 1 << 30
+		perSrc = 7
 	}
 	vr := &ga.ValueRun{
 		Prop: "C05", Calls: []ga.Call{callDCP, callDCD, callClone}, SupObs: "sup-dc", PoolQuick: 10, PoolThorough: 16,
@@ -98,6 +160,12 @@ func Run(cfg hx.Config) (*hx.Meta, error) {
 			lab := 100000000 + idx*100000
 			fresh := func() int { lab++; return lab }
 			rk := refKind(t)
+			for _, c := range corpus[t.Go(0)] {
+				f := strings.SplitN(c, " ", 2)
+				fmt.Fprintf(out, "%s %d %s\n", f[0], idx, f[1])
+				atomic.AddInt64(&corpusRun, 1)
+			}
+			vals = append(append([]*ga.Val{}, vals...), extraMapValues(t, r)...)
 			// prior destinations of one source: the zero value, the source's own shape at other
 			// addresses, and other pool values (nil-ness mutations, longer/shorter slices with
 			// spare capacity, populated maps are all pool members)
@@ -150,5 +218,13 @@ func Run(cfg hx.Config) (*hx.Meta, error) {
 			}
 		},
 	}
-	return vr.Run(cfg)
+	meta, err := vr.Run(cfg)
+	if meta != nil {
+		n := 0
+		for _, cs := range corpus {
+			n += len(cs)
+		}
+		meta.Count(fmt.Sprintf("corpus-cases=%d run=%d", n, corpusRun))
+	}
+	return meta, err
 }
